@@ -388,7 +388,9 @@ def _trace_collect(v, results):
                      "with a cancel before the timer was due: %s" % dict(stats))
     v.notes["driver_wall_s"] = round(sum(x.get("t_drv", 0) for x in results), 1)
     v.notes["trace_validation_wall_s"] = round(sum(x.get("t_val", 0) for x in results), 1)
-    log("  traces: %d validated, %d executions" % (v.traces, stats.get("executions", 0)))
+    log("  traces: %d validated, %d executions (driver runs %s s, validations %s s)" % (
+        v.traces, stats.get("executions", 0), " ".join("%.0f" % x.get("t_drv", 0) for x in results),
+        " ".join("%.0f" % x.get("t_val", 0) for x in results)))
 
 
 def block_queue_ref(v, tier, seed):
